@@ -1,10 +1,57 @@
 package refkdf
 
 import (
+	"crypto/md5"
 	"crypto/sha1"
+	"crypto/sha256"
+	"crypto/sha512"
+	"fmt"
 	"hash"
 	"math/big"
 )
+
+// S2KHash maps the OpenPGP hash algorithm ids of RFC 4880 section 9.4 that
+// the package under test supports to independent implementations (standard
+// library; the reference RIPEMD-160 of this package).
+func S2KHash(id byte) (func() hash.Hash, int, bool) {
+	switch id {
+	case 1:
+		return md5.New, 16, true
+	case 2:
+		return sha1.New, 20, true
+	case 3:
+		return NewRIPEMD160, 20, true
+	case 8:
+		return sha256.New, 32, true
+	case 9:
+		return sha512.New384, 48, true
+	case 10:
+		return sha512.New, 64, true
+	case 11:
+		return sha256.New224, 28, true
+	}
+	return nil, 0, false
+}
+
+// S2KFromSpec interprets a serialized specifier (mode, hash id, [salt, [count]]).
+func S2KFromSpec(spec, passphrase []byte, keyLen int) ([]byte, error) {
+	if len(spec) < 2 {
+		return nil, fmt.Errorf("short specifier")
+	}
+	nh, _, ok := S2KHash(spec[1])
+	if !ok {
+		return nil, fmt.Errorf("unsupported hash id %d", spec[1])
+	}
+	switch {
+	case spec[0] == 0 && len(spec) == 2:
+		return S2K(nh, 0, nil, passphrase, 0, keyLen), nil
+	case spec[0] == 1 && len(spec) == 10:
+		return S2K(nh, 1, spec[2:10], passphrase, 0, keyLen), nil
+	case spec[0] == 3 && len(spec) == 11:
+		return S2K(nh, 3, spec[2:10], passphrase, S2KDecodeCount(spec[10]), keyLen), nil
+	}
+	return nil, fmt.Errorf("unsupported specifier % x", spec)
+}
 
 // ---------------------------------------------------------------------------
 // OpenPGP string-to-key — RFC 4880 section 3.7.1.
